@@ -85,6 +85,7 @@ type Ctx struct {
 	Propose   string
 	VerifyKnown bool // replay known findings too and compare their input class
 	Covers func(name string) bool
+	arithExtra string // operand values taken from solver models, handed to the arith harness
 	mu        sync.Mutex
 }
 
@@ -275,7 +276,13 @@ func finish(c *Ctx, pd *propDef) int {
 	if c.WriteBase {
 		base := map[string]BaseEntry{}
 		for _, it := range c.Items {
-			base[it.Name] = BaseEntry{Status: it.Status, Hash: it.Hash}
+			st := it.Status
+			if st == "discharged" && it.Secs > 2.5 {
+				// a proof that needs seconds is the kind that is lost for no semantic reason after an unrelated
+				// edit: it is not claimed (never the source of a violation), only reported as undecided
+				st = "slow"
+			}
+			base[it.Name] = BaseEntry{Status: st, Hash: it.Hash}
 		}
 		_ = os.MkdirAll(filepath.Join(verifDir, "baseline"), 0o755)
 		b, _ := json.MarshalIndent(base, "", " ")
